@@ -550,3 +550,63 @@ func init() {
 	reg("C03.det", checkC03)
 	reg("C03.swap", checkC03Swap)
 }
+
+// ---- names of macros written where a value is expected ------------------------------------------------
+
+type C03MacroNameCase struct {
+	Which int `json:"which"`
+}
+
+var c03MacroNameSrcs = []string{
+	"{% from 'lib' import box %}[{{ box }}]",
+	"{% from 'lib' import box as b %}[{{ b }}|{{ b|default('d') }}]",
+	"{% macro m(x) %}M{{ x }}{% endmacro %}[{{ m }}]{{ m(1) }}",
+	"{% macro m(x) %}M{{ x }}{% endmacro %}{% set v = m %}[{{ v }}]",
+	"{% from 'lib' import box, other %}{% for f in [box, other] %}<{{ f }}>{% endfor %}",
+	"{% from 'lib' import box %}{{ box is defined ? 'def' : 'undef' }}|{{ box ? 'y' : 'n' }}|{{ box ~ '' }}",
+	"{% from 'lib' import box %}{{ {'k': box}|json_encode }}|{{ [box]|join(',') }}|{{ box|length }}",
+	"{% import 'lib' as l %}[{{ l.box(1) }}]{% from 'lib' import other %}{% include 'show' with {'v': other} only %}",
+}
+
+// checkC03MacroName: whatever a template prints for the bare name of a macro, it prints the
+// same on every engine and in every process.
+func checkC03MacroName(c C03MacroNameCase) error {
+	src := c03MacroNameSrcs[c.Which%len(c03MacroNameSrcs)]
+	tm := map[string]string{"main": src, "lib": "{% macro box(a, b = 'B') %}[{{ a }}{{ b }}]{% endmacro %}{% macro other(x) %}<{{ x }}>{% endmacro %}", "show": "({{ v }})"}
+	qr := OneShot{Eng: EngSpec{Templates: tm}, Call: "render", Name: "main"}
+	first := runOneShot(qr)
+	if first.Panic != "" {
+		return fmt.Errorf("render panicked: %v; source %s", first, q(src))
+	}
+	var keep [][]byte
+	for i := 0; i < 3; i++ {
+		keep = append(keep, make([]byte, 1<<uint(10+i))) // move the allocator on between engines
+		if r := runOneShot(qr); !r.Same(first) {
+			return fmt.Errorf("the name of a macro where a value is expected: a second engine renders %v, the first rendered %v; source %s", r, first, q(src))
+		}
+	}
+	_ = keep
+	r, err := pristine(qr)
+	if err != nil {
+		return fmt.Errorf("harness: %v", err)
+	}
+	if !r.Same(first) {
+		return fmt.Errorf("the name of a macro where a value is expected: a fresh process renders %v, this process %v; source %s", r, first, q(src))
+	}
+	return nil
+}
+
+func TestC03MacroNames(t *testing.T) {
+	r := NewRec(t, "C03", "exhaustive: 8 templates that write the bare name of a visible macro (local, from-import, alias) where a value is expected (print, set, list and hash elements, tests, filters, include variables); oracle: four engines in this process and one in a fresh process render the same bytes; all cases non-trivial")
+	defer r.Flush()
+	r.SetExhaustive()
+	for i := range c03MacroNameSrcs {
+		c := C03MacroNameCase{Which: i}
+		r.Case(fmt.Sprint(i), true, c03MacroNameSrcs[i])
+		if err := checkC03MacroName(c); err != nil {
+			r.FailEnum(t, "C03.macroname", c, err)
+		}
+	}
+}
+
+func init() { reg("C03.macroname", checkC03MacroName) }
